@@ -690,3 +690,74 @@ Proof.
   replace (F + G * j) with (G * j + F) by lia.
   apply Z.le_antisymm; apply price_of_le_inv; try assumption; fold x0; lia.
 Qed.
+
+(** * CalculatePriceToTick alone: the tick of the price's bucket or its successor (never further off) *)
+Lemma price_to_tick_near u p : -30 * G <= u < 38 * G -> price_of u <= p < price_of (u + 1) ->
+  calculate_price_to_tick p = Ok u \/ calculate_price_to_tick p = Ok (u + 1).
+Proof.
+  intros Hu Hp.
+  pose proof (price_of_bounds u ltac:(lia)) as Hb0. pose proof (price_of_bounds (u + 1) ltac:(lia)) as Hb1.
+  destruct price_consts_val as (Hmax & Hminb & Hmin).
+  rewrite calculate_price_to_tick_unfold. rewrite Hmax, Hminb, Hmin.
+  tf (p <? 0) false. tf (p >? 10 ^ 74) false. tf (p <? 10 ^ 6) false. cbn [orb].
+  destruct (p =? P36) eqn:E36.
+  { apply Z.eqb_eq in E36. assert (P0 : price_of 0 = P36) by (vm_compute; reflexivity).
+    assert (u <= 0) by (apply price_of_le_inv; [lia|unfold G; lia|lia]).
+    assert (0 < u + 1) by (apply price_of_lt_inv; [unfold G; lia|lia|lia]).
+    left. f_equal. lia. }
+  apply Z.eqb_neq in E36. cbv zeta.
+  set (x := if p >=? 10 ^ 24 then bd_chop_precision 18 p else p).
+  assert (Hx : price_of u <= x <= p).
+  { subst x. destruct (p >=? 10 ^ 24) eqn:E; [|lia]. rewrite Z.geb_leb in E. apply Z.leb_le in E.
+    assert (-12 * G <= u).
+    { assert (-12 * G < u + 1); [|lia]. apply price_of_lt_inv; [unfold G; lia|lia|].
+      replace (price_of (-12 * G)) with (10 ^ 24) by (vm_compute; reflexivity). lia. }
+    unfold bd_chop_precision. change (36 - 18) with 18.
+    destruct (price_of_mult18 u H) as [k Hk]. unfold P18 in Hk.
+    assert (0 < 10 ^ 18) by (vm_compute; reflexivity).
+    rewrite Z.quot_div_nonneg by lia.
+    pose proof (Z.mul_div_le p (10 ^ 18) H0). split; [|lia].
+    rewrite Hk. assert (k <= p / 10 ^ 18) by (apply Z.div_le_lower_bound; lia). nia. }
+  assert (Hs : exists j, (if x >? P36 then search_up 400 x 0 else search_down 400 x (-1)) = Ok j /\
+                         -30 <= j <= 37 /\ 10 ^ (36 + j) <= x <= 10 ^ (37 + j)).
+  { destruct (x >? P36) eqn:Eg; rewrite Z.gtb_ltb in Eg.
+    - apply Z.ltb_lt in Eg.
+      destruct (search_up_spec x ltac:(lia) 37%nat 0 400%nat eq_refl ltac:(lia) ltac:(lia) Eg) as (j & Hj & Hr & Hb).
+      exists j. split; [exact Hj|]. split; lia.
+    - apply Z.ltb_ge in Eg.
+      destruct (search_down_spec x ltac:(lia) 29%nat (-1) 400%nat eq_refl ltac:(lia) ltac:(lia) Eg) as (j & Hj & Hr & Hb).
+      exists j. split; [exact Hj|]. split; lia. }
+  destruct Hs as (j & Hj & Hjr & Hjb). rewrite Hj.
+  destruct (core_spec x j Hjr Hjb) as (HF & ti & Hcore & Hti). cbv zeta in *. rewrite Hcore.
+  pose proof (pow10_gt0 (30 + j) ltac:(lia)) as Hinc.
+  set (inc := 10 ^ (30 + j)) in *. set (pin := x - 10 ^ 6 * inc) in *. set (F := pin / inc) in *.
+  assert (E37 : 10 ^ (37 + j) = 10 ^ 7 * inc).
+  { subst inc. replace (37 + j) with (7 + (30 + j)) by lia. apply pow10_add; lia. }
+  assert (E36' : 10 ^ (36 + j) = 10 ^ 6 * inc).
+  { subst inc. replace (36 + j) with (6 + (30 + j)) by lia. apply pow10_add; lia. }
+  assert (HFl : F * inc <= pin) by (subst F; rewrite Z.mul_comm; apply Z.mul_div_le; lia).
+  assert (HFu : pin < (F + 1) * inc).
+  { subst F. pose proof (Z.mod_pos_bound pin inc Hinc). pose proof (Z.div_mod pin inc ltac:(lia)). nia. }
+  set (w := G * j + F).
+  assert (Hwr : -30 * G <= w <= 38 * G) by (subst w; unfold G; lia).
+  assert (Pw : price_of w = (10 ^ 6 + F) * inc) by (subst w; apply price_of_decade; [lia|exact HF]).
+  assert (Ew : w = u).
+  { apply Z.le_antisymm.
+    - assert (w < u + 1); [|lia]. apply price_of_lt_inv; [lia|lia|]. rewrite Pw. subst pin. lia.
+    - destruct (Z_le_gt_dec u w) as [L|L]; [exact L|exfalso].
+      destruct (Z.eq_dec F 9000000) as [EF|NF].
+      + assert (x = price_of w) by (rewrite Pw, EF; subst pin; rewrite EF in HFl; lia).
+        pose proof (price_of_strict_mono w u ltac:(lia) ltac:(lia) ltac:(lia)). lia.
+      + assert (Pw1 : price_of (w + 1) = (10 ^ 6 + (F + 1)) * inc).
+        { subst w. replace (G * j + F + 1) with (G * j + (F + 1)) by lia. apply price_of_decade; lia. }
+        pose proof (price_of_mono (w + 1) u ltac:(lia) ltac:(lia) ltac:(lia)).
+        assert (x < price_of (w + 1)) by (rewrite Pw1; subst pin; lia). lia. }
+  destruct Hti as [->|[-> _]]; [left|right]; f_equal; subst w; lia.
+Qed.
+
+(* ... and "or its successor" cannot be dropped: in the decades above 10^25 QuoMut rounds half-even before
+   TruncateInt64, so a price within 5*10^(d-7) raw units below a tick price is mapped to that tick *)
+Lemma price_to_tick_not_floor :
+  let p := price_of (30 * G + 5) - 10 ^ 18 in
+  price_of (30 * G + 4) <= p < price_of (30 * G + 5) /\ calculate_price_to_tick p = Ok (30 * G + 5).
+Proof. vm_compute. repeat split; try reflexivity; intro; discriminate. Qed.
